@@ -6,7 +6,7 @@
 //!        `create_program_address` of seeds whose concatenation is `flat`, under the harness program
 //!        (`-` = on curve); the harness re-computes it and answers `bad-hash` if the line lies
 //!   `acct <key> <lamports> <owner> <data-hex> <signer> <writable>`   -> `ok`   (before any other account op)
-//!   `funder <key> <none | seed.seed…>`                               -> `ok` | `err:…`
+//!   `funder <key> <none | seed.seed…> [box]`                            -> `ok` | `err:…`
 //!        declares the funder / recipient: `Signer<Mut<AccountInfo>>` (decode only) or
 //!        `Seeded<Mut<AccountInfo>, RawSeeds>` validated with `Seeds(..)`
 //!   `cache <funder|recipient>`                                       -> `ok`   put the declared one into the context cache
@@ -45,18 +45,35 @@ type FSeeded = Seeded<Mut<AccountInfo>, RawSeeds>;
 enum FunderObj {
     Plain(FPlain),
     Seeded(FSeeded),
+    /// the same two behind the `Box<T>` carrier (impls/boxed.rs forwards every trait)
+    BoxPlain(Box<FPlain>),
+    BoxSeeded(Box<FSeeded>),
 }
 impl FunderObj {
     fn boxed(&self) -> Box<dyn CanFundRent> {
         match self {
             FunderObj::Plain(f) => Box::new(*f),
             FunderObj::Seeded(f) => Box::new(f.clone()),
+            FunderObj::BoxPlain(f) => Box::new(f.clone()),
+            FunderObj::BoxSeeded(f) => Box::new(f.clone()),
         }
     }
     fn as_dyn(&self) -> &dyn CanFundRent {
         match self {
             FunderObj::Plain(f) => f,
             FunderObj::Seeded(f) => f,
+            FunderObj::BoxPlain(f) => f,
+            FunderObj::BoxSeeded(f) => f,
+        }
+    }
+    fn is_seeded(&self) -> bool {
+        matches!(self, FunderObj::Seeded(_) | FunderObj::BoxSeeded(_))
+    }
+    fn boxed_carrier(self) -> Self {
+        match self {
+            FunderObj::Plain(f) => FunderObj::BoxPlain(Box::new(f)),
+            FunderObj::Seeded(f) => FunderObj::BoxSeeded(Box::new(f)),
+            other => other,
         }
     }
 }
@@ -119,6 +136,7 @@ fn valid_value(ty: &str, enc: &[u8]) -> bool {
     match ty {
         "zc16" => enc.len() == 16,
         "zclist" => enc.len() >= 4 && [3usize, 17].contains(&(enc.len() - 4)) && u32::from_le_bytes(enc[..4].try_into().unwrap()) as usize == enc.len() - 4,
+        "bunit" => enc.is_empty(),
         "borsh" => enc.len() >= 12 && enc.len() <= 1000 && u32::from_le_bytes(enc[8..12].try_into().unwrap()) as usize == enc.len() - 12,
         _ => false,
     }
@@ -127,6 +145,7 @@ fn default_value(ty: &str) -> Vec<u8> {
     match ty {
         "zc16" => vec![0; 16],
         "zclist" => vec![0; 4],
+        "bunit" => vec![],
         _ => vec![0; 12],
     }
 }
@@ -134,6 +153,7 @@ pub fn disc_of(ty: &str) -> [u8; 8] {
     match ty {
         "zc16" => DISC_ZC16,
         "zclist" => DISC_ZCLIST,
+        "bunit" => DISC_BUNIT,
         _ => DISC_BORSH,
     }
 }
@@ -211,59 +231,86 @@ fn log_str() -> String {
 
 // ------------------------------------------------------------------------------------------ init
 
-/// Validate `Init<Signer<AS>>` / `Init<Seeded<AS, RawSeeds>>` with `Create(c)` / `CreateIfNeeded(c)`.
-fn init_with<AS, C>(info: &AccountInfo, tseeds: Option<RawSeeds>, if_needed: bool, c: C, ctx: &mut Context) -> star_frame::Result<(String, Pending)>
+/// `needed_init()` through the carriers.
+trait NeededInit {
+    fn needed(&self) -> bool;
+}
+impl<T> NeededInit for Init<T> {
+    fn needed(&self) -> bool {
+        self.needed_init()
+    }
+}
+impl<T> NeededInit for Box<Init<T>> {
+    fn needed(&self) -> bool {
+        self.needed_init()
+    }
+}
+/// A set type that can be decoded from one account, validated with the `Create` form `A1` and the
+/// `CreateIfNeeded` form `A2`, and cleaned up.
+trait InitSet<A1, A2>: for<'a> AccountSetDecode<'a, ()> + AccountSetValidate<A1> + AccountSetValidate<A2> + AccountSetCleanup<()> + NeededInit + 'static {}
+impl<T, A1, A2> InitSet<A1, A2> for T where T: for<'a> AccountSetDecode<'a, ()> + AccountSetValidate<A1> + AccountSetValidate<A2> + AccountSetCleanup<()> + NeededInit + 'static {}
+
+/// Decode `S`, validate it with `arg`; the decoded set survives a failed validation (as in a program
+/// that handles the error): its default cleanup (borsh: `serialize()`) can still be run by `cleanup`.
+fn validate_set<S, A>(info: &AccountInfo, arg: A, ctx: &mut Context) -> star_frame::Result<(String, Pending)>
 where
-    Init<Signer<AS>>: for<'a> AccountSetDecode<'a, ()> + AccountSetValidate<Create<C>> + AccountSetValidate<CreateIfNeeded<C>> + AccountSetCleanup<()> + 'static,
-    Init<Seeded<AS, RawSeeds>>: for<'a> AccountSetDecode<'a, ()>
-        + AccountSetValidate<(Create<C>, Seeds<RawSeeds>)>
-        + AccountSetValidate<(CreateIfNeeded<C>, Seeds<RawSeeds>)>
-        + AccountSetCleanup<()>
-        + 'static,
+    S: for<'a> AccountSetDecode<'a, ()> + AccountSetValidate<A> + AccountSetCleanup<()> + NeededInit + 'static,
 {
-    // The decoded set survives a failed validation (as in a program that handles the error): its
-    // default cleanup (for borsh: `serialize()`) can still be run by a later `cleanup` op.
-    match tseeds {
-        None => {
-            let mut set: Init<Signer<AS>> = try_decode1(info)?;
-            let r = if if_needed { set.validate_accounts(CreateIfNeeded(c), ctx) } else { set.validate_accounts(Create(c), ctx) };
-            let ans = match r {
-                Ok(()) => format!("ok needed={}", set.needed_init() as u8),
-                Err(e) => err_class(e),
-            };
-            Ok((ans, Box::new(move |ctx: &mut Context| set.cleanup_accounts((), ctx))))
-        }
-        Some(raw) => {
-            let mut set: Init<Seeded<AS, RawSeeds>> = try_decode1(info)?;
-            let r = if if_needed { set.validate_accounts((CreateIfNeeded(c), Seeds(raw)), ctx) } else { set.validate_accounts((Create(c), Seeds(raw)), ctx) };
-            let ans = match r {
-                Ok(()) => format!("ok needed={}", set.needed_init() as u8),
-                Err(e) => err_class(e),
-            };
-            Ok((ans, Box::new(move |ctx: &mut Context| set.cleanup_accounts((), ctx))))
-        }
+    let mut set: S = try_decode1(info)?;
+    let ans = match set.validate_accounts(arg, ctx) {
+        Ok(()) => format!("ok needed={}", set.needed() as u8),
+        Err(e) => err_class(e),
+    };
+    Ok((ans, Box::new(move |ctx: &mut Context| set.cleanup_accounts((), ctx))))
+}
+
+/// Validate the target with `Create(c)` / `CreateIfNeeded(c)`. Target kinds: keypair
+/// (`Signer<AS>`) / seeded (`Seeded<AS, RawSeeds>`); carriers: 0 = `Init<X>`, 1 = `Box<Init<X>>`,
+/// 2 = `Init<Box<X>>` (the `Box` forwarding impls of `CanInitSeeds` / `CanInitAccount`).
+fn init_with<AS, C>(info: &AccountInfo, tseeds: Option<RawSeeds>, if_needed: bool, carrier: u8, c: C, ctx: &mut Context) -> star_frame::Result<(String, Pending)>
+where
+    Init<Signer<AS>>: InitSet<Create<C>, CreateIfNeeded<C>>,
+    Box<Init<Signer<AS>>>: InitSet<Create<C>, CreateIfNeeded<C>>,
+    Init<Box<Signer<AS>>>: InitSet<Create<C>, CreateIfNeeded<C>>,
+    Init<Seeded<AS, RawSeeds>>: InitSet<(Create<C>, Seeds<RawSeeds>), (CreateIfNeeded<C>, Seeds<RawSeeds>)>,
+    Box<Init<Seeded<AS, RawSeeds>>>: InitSet<(Create<C>, Seeds<RawSeeds>), (CreateIfNeeded<C>, Seeds<RawSeeds>)>,
+    Init<Box<Seeded<AS, RawSeeds>>>: InitSet<(Create<C>, Seeds<RawSeeds>), (CreateIfNeeded<C>, Seeds<RawSeeds>)>,
+{
+    match (tseeds, if_needed, carrier) {
+        (None, false, 0) => validate_set::<Init<Signer<AS>>, _>(info, Create(c), ctx),
+        (None, true, 0) => validate_set::<Init<Signer<AS>>, _>(info, CreateIfNeeded(c), ctx),
+        (None, false, 1) => validate_set::<Box<Init<Signer<AS>>>, _>(info, Create(c), ctx),
+        (None, true, 1) => validate_set::<Box<Init<Signer<AS>>>, _>(info, CreateIfNeeded(c), ctx),
+        (None, false, _) => validate_set::<Init<Box<Signer<AS>>>, _>(info, Create(c), ctx),
+        (None, true, _) => validate_set::<Init<Box<Signer<AS>>>, _>(info, CreateIfNeeded(c), ctx),
+        (Some(raw), false, 0) => validate_set::<Init<Seeded<AS, RawSeeds>>, _>(info, (Create(c), Seeds(raw)), ctx),
+        (Some(raw), true, 0) => validate_set::<Init<Seeded<AS, RawSeeds>>, _>(info, (CreateIfNeeded(c), Seeds(raw)), ctx),
+        (Some(raw), false, 1) => validate_set::<Box<Init<Seeded<AS, RawSeeds>>>, _>(info, (Create(c), Seeds(raw)), ctx),
+        (Some(raw), true, 1) => validate_set::<Box<Init<Seeded<AS, RawSeeds>>>, _>(info, (CreateIfNeeded(c), Seeds(raw)), ctx),
+        (Some(raw), false, _) => validate_set::<Init<Box<Seeded<AS, RawSeeds>>>, _>(info, (Create(c), Seeds(raw)), ctx),
+        (Some(raw), true, _) => validate_set::<Init<Box<Seeded<AS, RawSeeds>>>, _>(info, (CreateIfNeeded(c), Seeds(raw)), ctx),
     }
 }
 
 /// The four argument shapes of init.rs / account.rs / borsh_account.rs: value + funder argument,
 /// funder argument only (default value), value only (cached funder), `()` (default, cached).
 macro_rules! init_shapes {
-    ($as:ty, $info:expr, $tseeds:expr, $ifn:expr, $funder:expr, $ctx:expr, default) => {
+    ($as:ty, $info:expr, $tseeds:expr, $ifn:expr, $car:expr, $funder:expr, $ctx:expr, default) => {
         match $funder {
-            Some(f) => init_with::<$as, (&dyn CanFundRent,)>($info, $tseeds, $ifn, (f,), $ctx),
-            None => init_with::<$as, ()>($info, $tseeds, $ifn, (), $ctx),
+            Some(f) => init_with::<$as, (&dyn CanFundRent,)>($info, $tseeds, $ifn, $car, (f,), $ctx),
+            None => init_with::<$as, ()>($info, $tseeds, $ifn, $car, (), $ctx),
         }
     };
-    ($as:ty, $info:expr, $tseeds:expr, $ifn:expr, $funder:expr, $ctx:expr, $mk:expr) => {{
+    ($as:ty, $info:expr, $tseeds:expr, $ifn:expr, $car:expr, $funder:expr, $ctx:expr, $mk:expr) => {{
         let mk = $mk;
         match $funder {
-            Some(f) => init_with::<$as, (_, &dyn CanFundRent)>($info, $tseeds, $ifn, (mk, f), $ctx),
-            None => init_with::<$as, _>($info, $tseeds, $ifn, mk, $ctx),
+            Some(f) => init_with::<$as, (_, &dyn CanFundRent)>($info, $tseeds, $ifn, $car, (mk, f), $ctx),
+            None => init_with::<$as, _>($info, $tseeds, $ifn, $car, mk, $ctx),
         }
     }};
 }
 
-fn run_init(case: &mut Case, ty: &str, if_needed: bool, tgt: usize, tseeds: Option<RawSeeds>, use_arg: bool, val: Option<Vec<u8>>) -> String {
+fn run_init(case: &mut Case, ty: &str, if_needed: bool, tgt: usize, tseeds: Option<RawSeeds>, use_arg: bool, val: Option<Vec<u8>>, carrier: u8) -> String {
     case.freeze();
     exec::install();
     exec::take_log();
@@ -275,24 +322,26 @@ fn run_init(case: &mut Case, ty: &str, if_needed: bool, tgt: usize, tseeds: Opti
         let funder: Option<&dyn CanFundRent> = if use_arg { Some(funder_obj.as_ref().unwrap().as_dyn()) } else { None };
         let ctx = &mut ctx;
         match (ty, val) {
-            ("zc16", None) => init_shapes!(Account<Zc16>, &info, tseeds, if_needed, funder, ctx, default),
+            ("zc16", None) => init_shapes!(Account<Zc16>, &info, tseeds, if_needed, carrier, funder, ctx, default),
             ("zc16", Some(v)) => {
                 let z = Zc16 { a: u64::from_le_bytes(v[..8].try_into().unwrap()), b: v[8..16].try_into().unwrap() };
-                init_shapes!(Account<Zc16>, &info, tseeds, if_needed, funder, ctx, move || z)
+                init_shapes!(Account<Zc16>, &info, tseeds, if_needed, carrier, funder, ctx, move || z)
             }
-            ("zclist", None) => init_shapes!(Account<ZcList>, &info, tseeds, if_needed, funder, ctx, default),
+            ("zclist", None) => init_shapes!(Account<ZcList>, &info, tseeds, if_needed, carrier, funder, ctx, default),
             ("zclist", Some(v)) if v.len() == 7 => {
                 let a: [u8; 3] = v[4..].try_into().unwrap();
-                init_shapes!(Account<ZcList>, &info, tseeds, if_needed, funder, ctx, move || ZcListInit { list: a })
+                init_shapes!(Account<ZcList>, &info, tseeds, if_needed, carrier, funder, ctx, move || ZcListInit { list: a })
             }
             ("zclist", Some(v)) => {
                 let a: [u8; 17] = v[4..].try_into().unwrap();
-                init_shapes!(Account<ZcList>, &info, tseeds, if_needed, funder, ctx, move || ZcListInit { list: a })
+                init_shapes!(Account<ZcList>, &info, tseeds, if_needed, carrier, funder, ctx, move || ZcListInit { list: a })
             }
-            ("borsh", None) => init_shapes!(BorshAccount<BData>, &info, tseeds, if_needed, funder, ctx, default),
+            ("bunit", None) => init_shapes!(BorshAccount<BUnit>, &info, tseeds, if_needed, carrier, funder, ctx, default),
+            ("bunit", Some(_)) => init_shapes!(BorshAccount<BUnit>, &info, tseeds, if_needed, carrier, funder, ctx, move || BUnit),
+            ("borsh", None) => init_shapes!(BorshAccount<BData>, &info, tseeds, if_needed, carrier, funder, ctx, default),
             (_, Some(v)) => {
                 let b = <BData as star_frame::borsh::BorshDeserialize>::try_from_slice(&v).expect("validated");
-                init_shapes!(BorshAccount<BData>, &info, tseeds, if_needed, funder, ctx, move || b)
+                init_shapes!(BorshAccount<BData>, &info, tseeds, if_needed, carrier, funder, ctx, move || b)
             }
             _ => unreachable!(),
         }
@@ -315,6 +364,10 @@ fn clean_set<S>(set: &mut S, op: &str, use_arg: bool, fobj: Option<&FunderObj>, 
 where
     S: for<'x> AccountSetCleanup<NormalizeRent<&'x FPlain>>
         + for<'x> AccountSetCleanup<NormalizeRent<&'x FSeeded>>
+        + for<'x> AccountSetCleanup<NormalizeRent<&'x Box<FPlain>>>
+        + for<'x> AccountSetCleanup<NormalizeRent<&'x Box<FSeeded>>>
+        + for<'x> AccountSetCleanup<ReceiveRent<&'x Box<FPlain>>>
+        + for<'x> AccountSetCleanup<ReceiveRent<&'x Box<FSeeded>>>
         + AccountSetCleanup<NormalizeRent<()>>
         + for<'x> AccountSetCleanup<ReceiveRent<&'x FPlain>>
         + for<'x> AccountSetCleanup<ReceiveRent<&'x FSeeded>>
@@ -328,11 +381,15 @@ where
         ("normalize", true) => match fobj.unwrap() {
             FunderObj::Plain(f) => set.cleanup_accounts(NormalizeRent(f), ctx),
             FunderObj::Seeded(f) => set.cleanup_accounts(NormalizeRent(f), ctx),
+            FunderObj::BoxPlain(f) => set.cleanup_accounts(NormalizeRent(f), ctx),
+            FunderObj::BoxSeeded(f) => set.cleanup_accounts(NormalizeRent(f), ctx),
         },
         ("normalize", false) => set.cleanup_accounts(NormalizeRent(()), ctx),
         ("receive", true) => match fobj.unwrap() {
             FunderObj::Plain(f) => set.cleanup_accounts(ReceiveRent(f), ctx),
             FunderObj::Seeded(f) => set.cleanup_accounts(ReceiveRent(f), ctx),
+            FunderObj::BoxPlain(f) => set.cleanup_accounts(ReceiveRent(f), ctx),
+            FunderObj::BoxSeeded(f) => set.cleanup_accounts(ReceiveRent(f), ctx),
         },
         ("receive", false) => set.cleanup_accounts(ReceiveRent(()), ctx),
         ("refund", true) => set.cleanup_accounts(RefundRent(recip.unwrap()), ctx),
@@ -453,14 +510,16 @@ pub fn exec_line(case: &mut Case, l: &str) -> String {
             case.specs.push(AcctSpec::new(key, owner).lamports(lam).data(data).signer(s).writable(w));
             "ok".into()
         }
-        ["funder", key, seeds] => {
+        ["funder", key, seeds] | ["funder", key, seeds, "box"] => {
+            let boxed = t.len() == 4;
             let (Some(key), Some(seeds)) = (parse_key(key), parse_seeds(seeds)) else { return bad() };
             let Some(i) = case.idx(&key) else { return bad() };
             case.freeze();
             let info = *case.world.as_ref().unwrap().info(i);
             match seeds {
                 None => {
-                    case.funder = Some((i, FunderObj::Plain(decode1::<FPlain>(&info))));
+                    let f = FunderObj::Plain(decode1::<FPlain>(&info));
+                    case.funder = Some((i, if boxed { f.boxed_carrier() } else { f }));
                     "ok".into()
                 }
                 Some(raw) => {
@@ -472,7 +531,8 @@ pub fn exec_line(case: &mut Case, l: &str) -> String {
                     });
                     match r {
                         Ok(Ok(f)) => {
-                            case.funder = Some((i, FunderObj::Seeded(f)));
+                            let f = FunderObj::Seeded(f);
+                            case.funder = Some((i, if boxed { f.boxed_carrier() } else { f }));
                             "ok".into()
                         }
                         Ok(Err(e)) => err_class(e),
@@ -493,8 +553,13 @@ pub fn exec_line(case: &mut Case, l: &str) -> String {
             }
             "ok".into()
         }
-        ["init", ty, mode, tkey, tseeds, how, val] => {
-            if !["zc16", "zclist", "borsh"].contains(ty) {
+        ["init", ty, mode, tkey, tseeds, how, val] | ["init", ty, mode, tkey, tseeds, how, val, "box" | "ibox"] => {
+            let carrier: u8 = match t.get(7) {
+                None => 0,
+                Some(&"box") => 1,
+                _ => 2,
+            };
+            if !["zc16", "zclist", "borsh", "bunit"].contains(ty) {
                 return bad();
             }
             let if_needed = match *mode {
@@ -521,7 +586,7 @@ pub fn exec_line(case: &mut Case, l: &str) -> String {
                 }
                 Some(v)
             };
-            run_init(case, ty, if_needed, ti, tseeds, use_arg, val)
+            run_init(case, ty, if_needed, ti, tseeds, use_arg, val, carrier)
         }
         ["cleanup"] => {
             let Some(p) = case.pending.take() else { return bad() };
@@ -590,7 +655,7 @@ struct InitOp {
 
 fn parse_init(l: &str) -> Option<InitOp> {
     let t: Vec<&str> = l.split(' ').collect();
-    if t.len() != 7 || t[0] != "init" {
+    if !(t.len() == 7 || t.len() == 8) || t[0] != "init" {
         return None;
     }
     let enc = if t[6] == "default" { default_value(t[1]) } else { unhex(t[6])? };
@@ -661,7 +726,7 @@ fn oracle_init(rec: &mut Recorder, case_rent: (u64, u64), funder: Option<Pubkey>
     }
     if res == "ok needed=1" {
         let space = W + op.enc.len();
-        let want_data: Vec<u8> = if op.ty == "borsh" { [&disc[..], &vec![0u8; op.enc.len()][..]].concat() } else { [&disc[..], &op.enc[..]].concat() };
+        let want_data: Vec<u8> = if op.ty == "borsh" || op.ty == "bunit" { [&disc[..], &vec![0u8; op.enc.len()][..]].concat() } else { [&disc[..], &op.enc[..]].concat() };
         // the balance claim needs a funder other than the target itself (a self-"funded" account
         // gains nothing; outside the property's quantifier, still run and diffed against the model)
         let self_funded = funder == Some(op.tgt);
@@ -731,16 +796,16 @@ fn oracle_set(rec: &mut Recorder, case_rent: (u64, u64), l: &str, ans: &str, bef
     if bystander != declared && bystander != tgt && find(before, &bystander).lamports != find(after, &bystander).lamports {
         rec.fail("cleanup_pays_wrong_account", &format!("{l} -> {ans}: {} changed by {} although the declared counterpart is {}", khex(&bystander), find(after, &bystander).lamports as i128 - find(before, &bystander).lamports as i128, khex(&declared)));
     }
-    oracle_clean_op(rec, case_rent, CleanOp { op: t[2].into(), tgt }, Some(declared), true, l, ans, before, after);
+    oracle_clean_op(rec, case_rent, CleanOp { op: t[2].into(), tgt }, Some(declared), true, false, l, ans, before, after);
 }
 
 /// C13 oracle for one `clean` op.
-fn oracle_clean(rec: &mut Recorder, case_rent: (u64, u64), other: Option<Pubkey>, cache_hit: bool, l: &str, ans: &str, before: &[AcctSpec], after: &[AcctSpec]) {
+fn oracle_clean(rec: &mut Recorder, case_rent: (u64, u64), other: Option<Pubkey>, cache_hit: bool, other_seeded: bool, l: &str, ans: &str, before: &[AcctSpec], after: &[AcctSpec]) {
     let Some(op) = parse_clean(l) else { return };
-    oracle_clean_op(rec, case_rent, op, other, cache_hit, l, ans, before, after);
+    oracle_clean_op(rec, case_rent, op, other, cache_hit, other_seeded, l, ans, before, after);
 }
 
-fn oracle_clean_op(rec: &mut Recorder, case_rent: (u64, u64), op: CleanOp, other: Option<Pubkey>, cache_hit: bool, l: &str, ans: &str, before: &[AcctSpec], after: &[AcctSpec]) {
+fn oracle_clean_op(rec: &mut Recorder, case_rent: (u64, u64), op: CleanOp, other: Option<Pubkey>, cache_hit: bool, other_seeded: bool, l: &str, ans: &str, before: &[AcctSpec], after: &[AcctSpec]) {
     let (res, _log) = ans.split_once(" cpis=").unwrap_or((ans, "-"));
     // a cached cleanup whose cache entry was never filled must be reported and move nothing
     if !cache_hit {
@@ -776,6 +841,31 @@ fn oracle_clean_op(rec: &mut Recorder, case_rent: (u64, u64), op: CleanOp, other
     if res == "panic" {
         rec.fail("cleanup_panics", &format!("{l} -> panic"));
         return;
+    }
+    // liveness of top-ups: a zero-copy account below its minimum (and not at 0), writable, with a
+    // distinct, writable, System-owned, data-less funder that can sign (outer signer or seeded,
+    // whatever carrier it sits in) and covers the shortfall => normalize / receive must succeed
+    if (op.op == "normalize" || op.op == "receive") && l.contains(" zc16 ") || l.starts_with("set ") && (op.op == "normalize" || op.op == "receive") {
+        if let Some(o) = other {
+            let (t0, f0) = (find(before, &op.tgt), find(before, &o));
+            let rent0 = rent_min(case_rent, t0.data.len());
+            let needs = t0.lamports > 0 && t0.lamports < rent0 && t0.is_writable;
+            let sys0 = Pubkey::new_from_array([0; 32]);
+            // a derived set must first pass its own validation: funder signer + writable, recipient
+            // writable, target owned by the program with the type's discriminant
+            let set_valid = !l.starts_with("set ") || {
+                let tk: Vec<&str> = l.split(' ').collect();
+                let fields_ok = match (parse_key(tk[3]), parse_key(tk[4])) {
+                    (Some(fk), Some(rk)) => find(before, &fk).is_signer && find(before, &fk).is_writable && find(before, &rk).is_writable,
+                    _ => false,
+                };
+                fields_ok && t0.owner == PROGRAM_ID && t0.data.len() >= W && t0.data[..W] == DISC_ZC16
+            };
+            let funder_ok = o != op.tgt && f0.owner == sys0 && f0.data.is_empty() && f0.is_writable && (f0.is_signer || other_seeded) && f0.lamports >= rent0 - t0.lamports.min(rent0);
+            if needs && funder_ok && set_valid && res != "ok" {
+                rec.fail("top_up_with_valid_funder_fails", &format!("{l} -> {ans}"));
+            }
+        }
     }
     if res != "ok" || other == Some(op.tgt) {
         return;
@@ -881,11 +971,12 @@ pub fn run_case(rec: &mut Recorder, header: &str, lines: &[String]) {
                 } else if is_init {
                     // cached funder: the payer is the cached one (same declared account)
                     let no_funder = cached && case.funder_sets.is_empty();
-                    let funder_seeded = if cached { matches!(case.funder_sets.last(), Some((_, FunderObj::Seeded(_)))) } else { matches!(case.funder, Some((_, FunderObj::Seeded(_)))) };
+                    let funder_seeded = if cached { case.funder_sets.last().is_some_and(|(_, f)| f.is_seeded()) } else { case.funder.as_ref().is_some_and(|(_, f)| f.is_seeded()) };
                     oracle_init(rec, case.rent, other, funder_seeded, no_funder, l, &ans, &before, &after);
                 } else {
                     let cache_hit = !cached || last_set.is_some();
-                    oracle_clean(rec, case.rent, other, cache_hit, l, &ans, &before, &after);
+                    let other_seeded = if cached { case.funder_sets.last().is_some_and(|(_, f)| f.is_seeded()) } else { case.funder.as_ref().is_some_and(|(_, f)| f.is_seeded()) };
+                    oracle_clean(rec, case.rent, other, cache_hit, other_seeded, l, &ans, &before, &after);
                 }
                 if ans.contains("cpis=") && !ans.ends_with("cpis=-") || ans.starts_with("err") || ans.starts_with("panic") || before != after {
                     nontrivial = true;
@@ -934,6 +1025,9 @@ fn acct_line(k: &Pubkey, lam: u64, owner: &Pubkey, data: &[u8], s: bool, w: bool
 const RENTS: [(u64, u64); 3] = [(3480, 2), (1, 1), (0, 2)];
 
 fn values(ty: &str, rng: &mut Rng, n: usize) -> Vec<Option<Vec<u8>>> {
+    if ty == "bunit" {
+        return vec![None, Some(vec![])];
+    }
     let mut v = vec![None];
     for i in 0..n {
         v.push(Some(match ty {
@@ -1016,10 +1110,13 @@ fn c12_case(id: usize, rng: &mut Rng, rent: (u64, u64), ty: &str, if_needed: boo
     lines.push(acct_line(&fkey, flam, &fowner, &fdata, fsigner, true));
     lines.push(acct_line(&tkey, tlam, &towner, &tdata, tsigner, twritable));
     lines.push(acct_line(&key(id as u64 * 4 + 2), 777, &THIRD_ID, &[7, 7, 7], false, true));
+    // carriers: every other case boxes the funder; the target cycles Init<X> / Box<Init<X>> / Init<Box<X>>
+    let fbox = if id % 2 == 1 { " box" } else { "" };
+    let tcar = ["", " box", " ibox"][(id / 2) % 3];
     if twist == 10 && !seeded_target {
-        lines.push(format!("funder {} none", khex(&tkey)));
+        lines.push(format!("funder {} none{fbox}", khex(&tkey)));
     } else {
-        lines.push(format!("funder {} {}", khex(&fkey), fseed_str));
+        lines.push(format!("funder {} {}{fbox}", khex(&fkey), fseed_str));
     }
     if cached && twist == 11 {
         // the funder cache was first set to a decoy, then to the real funder (the last one counts)
@@ -1033,7 +1130,7 @@ fn c12_case(id: usize, rng: &mut Rng, rent: (u64, u64), ty: &str, if_needed: boo
         lines.push("cache funder".into());
     }
     let vstr = val.as_ref().map(|v| hex(v)).unwrap_or("default".into());
-    let init = format!("init {ty} {} {} {} {} {}", if if_needed { "ifneeded" } else { "create" }, khex(&tkey), tseed_str, if cached { "cached" } else { "arg" }, vstr);
+    let init = format!("init {ty} {} {} {} {} {}{tcar}", if if_needed { "ifneeded" } else { "create" }, khex(&tkey), tseed_str, if cached { "cached" } else { "arg" }, vstr);
     lines.push(init.clone());
     lines.push("world".into());
     lines.push("cleanup".into());
@@ -1046,7 +1143,7 @@ fn c12_case(id: usize, rng: &mut Rng, rent: (u64, u64), ty: &str, if_needed: boo
     (header, lines)
 }
 
-const C12_RULE: &str = "grid: target state (0 lamports; pre-funded below/at/above rent; owned by the program with zero / set / wrong discriminant; owned by a third program with data shorter / longer than the discriminant, zero or non-zero; System-owned with data; program-owned with 0 lamports) x funder (plain signer, seeded signer; argument or context cache) x account type (zero-copy pod, zero-copy list, borsh) x Create / CreateIfNeeded x initial values (default + random) x 3 rent parameter sets x seeded / keypair target, each followed by the set's default cleanup (also after a FAILED init: the account must be left exactly as it was) and a second Create and CreateIfNeeded on the result; plus twists (read-only target, unsigned target, poor funder, unsigned funder, seeds without the bump slot, seeds of another address, missing funder cache, funder owned by a third program, funder with data, target funding itself, funder cache set twice) and PRNG-drawn mixes. A case is non-trivial when an init op issued a CPI, returned an error / panicked, or changed the world; distinct by case text hash.";
+const C12_RULE: &str = "grid: target state (0 lamports; pre-funded below/at/above rent; owned by the program with zero / set / wrong discriminant; owned by a third program with data shorter / longer than the discriminant, zero or non-zero; System-owned with data; program-owned with 0 lamports) x funder (plain signer, seeded signer; argument or context cache) x account type (zero-copy pod, zero-copy list, borsh, borsh with an EMPTY encoding) x carrier (funder plain / Box<funder>; target Init<X> / Box<Init<X>> / Init<Box<X>>) x Create / CreateIfNeeded x initial values (default + random) x 3 rent parameter sets x seeded / keypair target, each followed by the set's default cleanup (also after a FAILED init: the account must be left exactly as it was) and a second Create and CreateIfNeeded on the result; plus twists (read-only target, unsigned target, poor funder, unsigned funder, seeds without the bump slot, seeds of another address, missing funder cache, funder owned by a third program, funder with data, target funding itself, funder cache set twice) and PRNG-drawn mixes. A case is non-trivial when an init op issued a CPI, returned an error / panicked, or changed the world; distinct by case text hash.";
 
 pub fn run_c12(args: &Args) {
     let mut rec = Recorder::new(C12_RULE);
@@ -1063,7 +1160,7 @@ pub fn run_c12(args: &Args) {
     let mut id = 0usize;
     let nvals = if thorough { 8 } else { 2 };
     for rent in RENTS {
-        for ty in ["zc16", "zclist", "borsh"] {
+        for ty in ["zc16", "zclist", "borsh", "bunit"] {
             for if_needed in [false, true] {
                 for tstate in 0..=13 {
                     for (seeded_target, seeded_funder, cached) in [(false, false, false), (true, false, true), (false, true, false), (true, true, false), (true, true, true)] {
@@ -1083,7 +1180,7 @@ pub fn run_c12(args: &Args) {
     for i in 0..n {
         id += 1;
         let rent = *rng.pick(&RENTS);
-        let ty = *rng.pick(&["zc16", "zclist", "borsh"]);
+        let ty = *rng.pick(&["zc16", "zclist", "borsh", "bunit"]);
         let vals = values(ty, &mut rng.fork(), 4);
         let val = rng.pick(&vals).clone();
         let twist = if i % 3 == 0 { 0 } else { 1 + (rng.below(11) as usize) };
@@ -1159,16 +1256,17 @@ fn c13_case(id: usize, rng: &mut Rng, rent: (u64, u64), ty: &str, op: &str, bal:
     lines.push(acct_line(&tkey, tlam, &PROGRAM_ID, &tdata, false, true));
     lines.push(acct_line(&key(id as u64 * 4 + 2), by_lam, &THIRD_ID, &[7, 7, 7], false, true));
     let funder_op = op == "normalize" || op == "receive";
+    let obox = if id % 2 == 1 { " box" } else { "" };
     if how == 4 {
         // the cache slot is set twice: first a decoy, then the real counterpart (the last one counts)
         let decoy = key(id as u64 * 4 + 3);
         lines.push(acct_line(&decoy, 4242, &SYS, &[], true, true));
         lines.push(format!("funder {} none", khex(&decoy)));
         lines.push(format!("cache {}", if funder_op { "funder" } else { "recipient" }));
-        lines.push(format!("funder {} {}", khex(&okey), oseed_str));
+        lines.push(format!("funder {} {}{obox}", khex(&okey), oseed_str));
         lines.push(format!("cache {}", if funder_op { "funder" } else { "recipient" }));
     } else if how != 2 {
-        lines.push(format!("funder {} {}", khex(&okey), oseed_str));
+        lines.push(format!("funder {} {}{obox}", khex(&okey), oseed_str));
     }
     if how == 1 {
         lines.push(format!("cache {}", if funder_op { "funder" } else { "recipient" }));
@@ -1219,7 +1317,7 @@ fn c13_set_case(id: usize, rng: &mut Rng, rent: (u64, u64), op: &str, order: &st
     (format!("case {id} c13 set {order} {op} bal={bal} size={size} twist={twist} rent={}x{}", rent.0, rent.1), lines)
 }
 
-const C13_RULE: &str = "grid: balance (0, 1, min-1, min, min+1, 2*min+3, 2^64-1-others) x data size (0 = lamport-only account, W, W+1, 100, 10000; borsh: 0, W, W+12.. ) x 3 rent parameter sets x funder/recipient (explicit argument, context cache set once, set twice with different accounts, missing cache, wrong cache filled) x plain / seeded funder x cleanup argument (Normalize, Refund, Receive, Close) x Account / BorshAccount (with and without a changed value), each followed by the same cleanup again; derived account sets that cache BOTH a funder and a distinct recipient through the derive-generated validation, in both declaration orders (funder first / recipient first), x the four cached cleanup arguments x balances x sizes (plus funder == recipient, unsigned funder, read-only recipient, wrong discriminant); plus PRNG-drawn mixes with poor / unsigned funders. A case is non-trivial when a clean op issued a CPI, returned an error / panicked, or changed the world; distinct by case text hash.";
+const C13_RULE: &str = "grid: balance (0, 1, min-1, min, min+1, 2*min+3, 2^64-1-others) x data size (0 = lamport-only account, W, W+1, 100, 10000; borsh: 0, W, W+12.. ) x 3 rent parameter sets x funder/recipient (explicit argument, context cache set once, set twice with different accounts, missing cache, wrong cache filled) x plain / seeded funder, bare or behind Box<T> x cleanup argument (Normalize, Refund, Receive, Close) x Account / BorshAccount (with and without a changed value), each followed by the same cleanup again; derived account sets that cache BOTH a funder and a distinct recipient through the derive-generated validation, in both declaration orders (funder first / recipient first), x the four cached cleanup arguments x balances x sizes (plus funder == recipient, unsigned funder, read-only recipient, wrong discriminant); plus PRNG-drawn mixes with poor / unsigned funders. A case is non-trivial when a clean op issued a CPI, returned an error / panicked, or changed the world; distinct by case text hash.";
 
 pub fn run_c13(args: &Args) {
     let mut rec = Recorder::new(C13_RULE);
